@@ -351,7 +351,7 @@ class K:
             new = '%s + %s' % (old, val) if isinstance(st, ast.AugAssign) else val
             c = ' ∧ '.join(conds)
             body_ = 'if %s then %s else %s' % (c, new, old) if conds else new
-            return sp + 'let %s : %s := fun %s => %s\n' % (A.name, self.fn_type(A.rank), ps, body_) + cont()
+            return sp + 'let %s : %s := fun %s => %s\n' % (A.name, self.fn_type(A.rank, A.is_int), ps, body_) + cont()
         if isinstance(st, ast.For):
             it = st.iter
             if not (isinstance(it, ast.Call) and dotted(it.func) in ('range', 'prange') and len(it.args) == 1
@@ -365,7 +365,7 @@ class K:
                 if a not in self.arr:
                     raise TranslationError('%s: array %s first assigned inside a loop' % (self.py, a))
             tup = arrays[0] if len(arrays) == 1 else '(%s)' % ', '.join(arrays)
-            typ = ' × '.join('(%s)' % self.fn_type(self.arr[a].rank) for a in arrays)
+            typ = ' × '.join('(%s)' % self.fn_type(self.arr[a].rank, self.arr[a].is_int) for a in arrays)
             env2 = dict(env)
             env2[st.target.id] = 'nat'
             saved = {a: (self.arr[a].virtual) for a in self.arr}
